@@ -354,6 +354,55 @@ mod verif_c06 {
         std::mem::forget(w);
     }
 
+    /// One step on an arbitrary well-formed open list (C09 recipe: the list nodes are typed locals, not
+    /// allocator blocks): locals 3 and 1 are already captured (open list 3 -> 1). Capturing local 2 creates
+    /// a fresh variable object that reads local 2 and keeps the list ordered (3 -> 2 -> 1); capturing 3 or
+    /// 1 again yields the very objects that exist already (so every closure shares them); leaving the
+    /// scope of local 3 (CloseUpvalue) closes exactly that variable with its last value and leaves the
+    /// variables below open and tracking their slots.
+    #[kani::proof]
+    #[kani::unwind(5)]
+    #[kani::stub(std::collections::hash_map::RandomState::new, random_state_stub)]
+    #[kani::stub(std::fmt::format, fmt_stub)]
+    #[kani::stub(crate::memory::Heap::collect_if_required, crate::memory::verif_mem::collect_if_required_stub)]
+    fn c06_capture_and_close_step_on_open_list() {
+        let vals: [f64; 3] = kani::any();
+        let mut st = store();
+        let mut w = world(&mut st, &vals, [(1, 1), (1, 2), (1, 1), (1, 2)]);
+        let (p1, p3) = {
+            let mut f = w.fiber.borrow_mut();
+            (&mut f.stack[1] as *mut Value, &mut f.stack[3] as *mut Value)
+        };
+        let mut n3 = Placed::new(RefCell::new(ObjUpvalue::new(p3)));
+        let mut n1 = Placed::new(RefCell::new(ObjUpvalue::new(p1)));
+        let (u3, u1) = (n3.gc(), n1.gc());
+        u3.borrow_mut().next = Some(u1);
+        w.fiber.borrow_mut().open_upvalues = Some(u3);
+        // capturing a variable that is already captured yields the existing object
+        assert!(w.vm.capture_upvalue(3) == u3 && w.vm.capture_upvalue(1) == u1, "a variable that is already captured is shared, not duplicated");
+        assert!(w.fiber.borrow().open_upvalues == Some(u3) && u3.borrow().next == Some(u1) && u1.borrow().next.is_none(), "and the open list is unchanged");
+        // capture local 2: a new variable object, inserted in order
+        let u2 = w.vm.capture_upvalue(2);
+        kani::cover!(true, "reach");
+        assert!(u2 != u3 && u2 != u1, "a variable captured for the first time gets its own object");
+        assert!(w.fiber.borrow().open_upvalues == Some(u3) && u3.borrow().next == Some(u2) && u2.borrow().next == Some(u1), "the open list stays ordered by slot");
+        // the scope of local 3 ends
+        w.vm.close_upvalue_impl();
+        assert!(w.vm.stack_size() == 3, "CloseUpvalue pops the local");
+        assert!(!u3.borrow().is_open() && num(u3.borrow().get(), vals[2]), "its variable is closed with its last value");
+        assert!(u1.borrow().is_open(), "variables below stay open");
+        assert!(w.fiber.borrow().open_upvalues == Some(u2), "and the open list starts at the highest open variable");
+        let t: f64 = kani::any();
+        w.vm.push(Value::Number(t));
+        assert!(num(u3.borrow().get(), vals[2]) && num(slot(&w, 3), t), "a closed variable is detached from the reused slot");
+        let nl: f64 = kani::any();
+        w.fiber.borrow_mut().stack[1] = Value::Number(nl);
+        assert!(num(u1.borrow().get(), nl), "open variables track their local");
+        std::mem::forget(n3);
+        std::mem::forget(n1);
+        std::mem::forget(w);
+    }
+
     /// Twin: must FAIL.
     #[kani::proof]
     #[kani::unwind(5)]
